@@ -153,6 +153,60 @@ pub fn g_printed(depth: u32, nodes: u32) -> BS<(Vec<u8>, usize)> {
     .boxed()
 }
 
+/// Code points for numeric escapes: every boundary of the scalar-value range
+/// and of the UTF-8 length classes, values just outside, and uniform draws.
+pub fn g_code_point() -> BS<u32> {
+    prop_oneof![
+        6 => proptest::sample::select(vec![
+            0u32, 0x41, 0x7f, 0x80, 0xff, 0x100, 0x7ff, 0x800, 0xd7ff, 0xd800, 0xd801, 0xdbff, 0xdc00, 0xdfff, 0xe000, 0xfffd, 0xffff, 0x10000,
+            0x10ffff, 0x110000, 0x1fffff, 0x200000, 0xffffff, 0x1000000, 0x7fffffff, 0xffffffff,
+        ]),
+        3 => 0u32..0x300,
+        2 => 0u32..0x110100,
+        1 => any::<u32>(),
+    ]
+    .boxed()
+}
+
+/// Character literals of both character syntaxes in every escape spelling,
+/// complete, truncated and with trailing junk, alone and inside a list.
+pub fn g_char_literal() -> BS<Vec<u8>> {
+    let names = proptest::sample::select(vec![
+        "space", "newline", "nul", "null", "alarm", "backspace", "delete", "escape", "return", "tab", "altmode", "linefeed", "page", "rubout", "spac", "newlinex", "x", "xx", "U",
+    ]);
+    let lit = prop_oneof![
+        3 => g_code_point().prop_map(|n| format!("#\\x{:x}", n)),
+        1 => g_code_point().prop_map(|n| format!("#\\x{:X};", n)),
+        2 => names.prop_map(|n| format!("#\\{}", n)),
+        2 => unicode_alpha().prop_map(|c| format!("#\\{}", c)),
+        2 => "[ -~]".prop_map(|c| format!("#\\{}", c)),
+        2 => "[ -~]".prop_map(|c| format!("?{}", c)),
+        2 => "[ -~]".prop_map(|c| format!("?\\{}", c)),
+        2 => unicode_alpha().prop_map(|c| format!("?{}", c)),
+        2 => g_code_point().prop_map(|n| format!("?\\x{:x}", n)),
+        2 => g_code_point().prop_map(|n| format!("?\\u{:04x}", n & 0xffff)),
+        2 => g_code_point().prop_map(|n| format!("?\\U{:08x}", n)),
+        3 => g_code_point().prop_map(|n| format!("?\\N{{U+{:X}}}", n)),
+        1 => g_code_point().prop_map(|n| format!("?\\N{{U+{:x}", n)),
+        2 => (0u32..0o1000).prop_map(|n| format!("?\\{:o}", n)),
+        2 => "[@-_a-z?]".prop_map(|c| format!("?\\^{}", c)),
+        2 => ("[CMSHAs]", "[ -~]").prop_map(|(m, c)| format!("?\\{}-{}", m, c)),
+        1 => ("[CMS]", "[CMS]", "[a-z]").prop_map(|(m, n, c)| format!("?\\{}-\\{}-{}", m, n, c)),
+    ];
+    (lit, 0u8..6, prop_oneof![3 => Just(""), 1 => Just("a"), 1 => Just("1"), 1 => Just(";")])
+        .prop_map(|(l, wrap, junk)| {
+            let t = match wrap {
+                0 => format!("({}{} x)", l, junk),
+                1 => format!("#({}{})", l, junk),
+                2 => format!("[x {}{}]", l, junk),
+                3 => format!("{}{} {}", l, junk, l),
+                _ => format!("{}{}", l, junk),
+            };
+            t.into_bytes()
+        })
+        .boxed()
+}
+
 /// String (and character) literals assembled from escape pieces of both
 /// string syntaxes, raw ASCII, raw multi-byte characters and stray bytes.
 pub fn g_string_literal() -> BS<Vec<u8>> {
@@ -165,9 +219,11 @@ pub fn g_string_literal() -> BS<Vec<u8>> {
         2 => (0u32..0x300).prop_map(|n| format!("\\x{:X}", n).into_bytes()),
         3 => (0u32..0o1000).prop_map(|n| format!("\\{:o}", n).into_bytes()),
         2 => (0u32..0x3000).prop_map(|n| format!("\\u{:04x}", n).into_bytes()),
-        1 => (0u32..0x110100).prop_map(|n| format!("\\U{:08x}", n).into_bytes()),
-        1 => (0u32..0x110100).prop_map(|n| format!("\\N{{U+{:X}}}", n).into_bytes()),
-        1 => (0u32..0x110100).prop_map(|n| format!("\\x{:x};", n).into_bytes()),
+        1 => g_code_point().prop_map(|n| format!("\\u{:04x}", n & 0xffff).into_bytes()),
+        2 => g_code_point().prop_map(|n| format!("\\U{:08x}", n).into_bytes()),
+        2 => g_code_point().prop_map(|n| format!("\\N{{U+{:X}}}", n).into_bytes()),
+        2 => g_code_point().prop_map(|n| format!("\\x{:x};", n).into_bytes()),
+        1 => g_code_point().prop_map(|n| format!("\\x{:x}", n).into_bytes()),
         1 => prop_oneof![Just(vec![0x80u8]), Just(vec![0xffu8]), Just(vec![0xc3u8]), Just(vec![0xe2u8, 0x82]), Just(vec![0xedu8, 0xa0, 0x80]), Just(vec![0u8]), Just(vec![0x7fu8])],
     ];
     (vec(piece, 0..7), 0u8..6)
@@ -203,6 +259,7 @@ pub fn g_input(max_len: usize) -> BS<(Vec<u8>, &'static str)> {
         4 => (g_printed(4, 30), g_mutations(3)).prop_map(|((b, _), ms)| (apply_mutations(&b, &ms), "mutated")),
         2 => g_anybytes(64).prop_map(|b| (b, "anybytes")),
         3 => g_string_literal().prop_map(|b| (b, "string-literal")),
+        2 => g_char_literal().prop_map(|b| (b, "char-literal")),
     ]
     .prop_map(move |(mut b, l)| {
         b.truncate(max_len);
